@@ -139,6 +139,32 @@ def run_linear(ctx, idx0):
                         est = odl.power_method_opnorm(A, maxiter=mi)
                         if est > nrm * (1 + 1e-9):
                             ctx.violation('power_method_opnorm', cfg, 'opnorm-exceeds-true-norm', est=float(est), true=nrm, maxiter=mi)
+                    # user-supplied start vectors: along the dominant / a weak singular direction, of lengths near the norm, its
+                    # square, 1 (a start of "lucky" length must not stop the iteration on a value that is no lower bound)
+                    U_, sv_, Vt_ = np.linalg.svd(Am * np.sqrt(wconst(Y)) / np.sqrt(wX), full_matrices=False)
+                    for direction, vec in (('dominant', Vt_[0] / np.sqrt(wX)), ('weakest', Vt_[-1] / np.sqrt(wX)), ('generic', rng.normal(size=n))):
+                        unit = vec / np.sqrt(np.sum(wX * vec ** 2))
+                        for L in (nrm * (1 + 5e-6), nrm ** 2 * (1 + 5e-6), nrm * 1.02, nrm ** 2 * 1.03, 1.0, 3.7 * nrm, nrm):
+                            for kw in ({}, {'rtol': 0.05}):
+                                ctx.ev('opnorm')
+                                try:
+                                    est = odl.power_method_opnorm(A, xstart=X.element(unit * L), maxiter=20, **kw)
+                                except ValueError:
+                                    continue      # e.g. a start vector in the null space: refused
+                                if est > nrm * (1 + 1e-9):
+                                    ctx.violation('power_method_opnorm', cfg + ';xstart=' + direction, 'opnorm-exceeds-true-norm', est=float(est), true=nrm, length=float(L), **kw)
+                    # Landweber with the default relaxation from a structured start (a weak singular direction): the default
+                    # must still be an admissible step
+                    for direction, vec in (('weakest', Vt_[-1] / np.sqrt(wX)), ('second', Vt_[min(1, len(sv_) - 1)] / np.sqrt(wX))):
+                        np.random.seed(idx + 7)
+                        r = trace.Recorder()
+                        x = X.element(vec * 2.0)
+                        r0 = np.linalg.norm(Am @ np.asarray(x) - ba)
+                        S.landweber(A, x, b, 30, callback=r)
+                        rs = [r0] + [np.linalg.norm(Am @ it - ba) for it in r.iterates]
+                        ctx.ev('monotone')
+                        if trace.nonincreasing(rs) is not None:
+                            ctx.violation('landweber', cfg + ';omega=default;start=' + direction, 'monotone:residual-increased', at=trace.nonincreasing(rs))
                     np.random.seed(idx)
                     est = odl.power_method_opnorm(A, maxiter=2000, rtol=1e-12)
                     if not (nrm * (1 - 1e-3) <= est <= nrm * (1 + 1e-9)) and cc == 'well':
